@@ -1802,6 +1802,10 @@ fn main() {
         let loc = info.location().map(|l| format!("{}:{}", l.file(), l.line())).unwrap_or_default();
         let line: String = format!("thread {:?} at {loc}: {msg}", th.name().unwrap_or("?")).chars().take(300).collect();
         eprintln!("c07: PANIC {line}");
+        // a panic raised by the harness's own code (scripted provider thread, case set-up) says nothing about rip
+        if loc.contains("harness/src/") {
+            return;
+        }
         if let Ok(mut g) = PANICS.lock() {
             g.push(line);
         }
